@@ -82,9 +82,9 @@ func (txn *Txn) rangeWrite(fn func(commitID uint64, chunk commit.Chunk, fill bit
 	lock := txn.owner.slock
 	txn.dirty.Range(func(x uint32) {
 		chunk := commit.Chunk(x)
-		commitID := commit.Next()
 		simYield(txn.owner, simBeforeLock, uint32(chunk))
 		lock.Lock(uint(chunk))
+		commitID := commit.Next() // drawn under the latch: IDs of a chunk follow its commit order
 
 		// Compute the fill and set the last commit ID
 		txn.owner.lock.RLock()
